@@ -26,6 +26,8 @@ structure Item where
   name : Bytes
   shown : Bool
   body : Bytes
+  /-- the metadata object of a leaf with annotations (the value of its `@name` member); empty = none -/
+  after : Bytes
   deriving Repr
 
 /-- items separated by commas -/
@@ -38,6 +40,18 @@ def sep : List Bytes → Bytes
 def keyOf (top : Bool) (pmod : Option Bytes) (modName name : Bytes) : Bytes :=
   [34] ++ (if top || pmod != some modName then modName ++ [58] else []) ++ name ++ [34, 58]
 
+/-- `"@module:name":` resp. `"@name":` (RFC 7952 sec. 5.2.2), qualified like the member it belongs to -/
+def keyAt (top : Bool) (pmod : Option Bytes) (modName name : Bytes) : Bytes :=
+  [34, 64] ++ (if top || pmod != some modName then modName ++ [58] else []) ++ name ++ [34, 58]
+
+/-- the `@name` member that follows the member of a leaf with annotations -/
+def afterMem (top : Bool) (pmod : Option Bytes) (i : Item) : List Bytes :=
+  if i.after.isEmpty then [] else [keyAt top pmod i.modName i.name ++ i.after]
+
+/-- the member of a leaf / container instance, and the `@name` member after it -/
+def plainMems (top : Bool) (pmod : Option Bytes) (i : Item) : List Bytes :=
+  (keyOf top pmod i.modName i.name ++ i.body) :: afterMem top pmod i
+
 /-- the members contributed by one run (`first :: more`, all of one schema node) -/
 def runMembers (top : Bool) (pmod : Option Bytes) (first : Item) (more : List Item) : List Bytes :=
   let shown := (first :: more).filter (·.shown)
@@ -45,7 +59,7 @@ def runMembers (top : Bool) (pmod : Option Bytes) (first : Item) (more : List It
     match shown with
     | [] => []
     | f :: _ => [keyOf top pmod f.modName f.name ++ [91] ++ sep (shown.map (·.body)) ++ [93]]
-  else shown.map fun i => keyOf top pmod i.modName i.name ++ i.body
+  else shown.flatMap (plainMems top pmod)
 
 /-- members of an object whose children are `its`: run by run -/
 def members (top : Bool) (pmod : Option Bytes) : List Item → List Bytes
@@ -66,6 +80,15 @@ def metaObjText (ms : List JMeta) : Bytes := [123] ++ sep (ms.map metaText) ++ [
 /-- the `"@":{…}` member a container / list entry with annotations starts with -/
 def metaMember (ms : List JMeta) : List Bytes := if ms.isEmpty then [] else [[34, 64, 34, 58] ++ metaObjText ms]
 
+/-- members, each preceded by a comma when something precedes it -/
+def cc (p : Bool) : List Bytes → Bytes
+  | [] => []
+  | m :: r => (if p then [44] else []) ++ m ++ cc true r
+
+/-- the metadata object of a LEAF with annotations (containers and list entries have it inside their body) -/
+def afterOf (n : JNode) : Bytes :=
+  if n.kind == .leaf && !n.metas.isEmpty then metaObjText n.metas else []
+
 mutual
 /-- the JSON text of one instance's value -/
 def body : JNode → Bytes
@@ -75,7 +98,7 @@ def body : JNode → Bytes
     | .cont | .list => [123] ++ sep (metaMember metas ++ members false (some modName) (items kids)) ++ [125]
 def items : List JNode → List Item
   | [] => []
-  | n :: r => ⟨n.sid, n.kind.isArr, n.modName, n.name, n.shown, body n⟩ :: items r
+  | n :: r => ⟨n.sid, n.kind.isArr, n.modName, n.name, n.shown, body n, afterOf n⟩ :: items r
 end
 
 /-- the specification of `json_print_data` (all siblings, shrink); metadata: the `@` member of containers and list entries (the
@@ -98,7 +121,7 @@ def simStep (top : Bool) (pmod : Option Bytes) (m : Mode) (it : Item) (isLast : 
       let k := (if p then [44] else []) ++ keyOf top pmod it.modName it.name
       if it.isArr then
         (k ++ [91] ++ it.body ++ (if isLast then [93] else []), if isLast then .closed true else .opened it.sid)
-      else (k ++ it.body, .closed true)
+      else (k ++ it.body ++ cc true (afterMem top pmod it), .closed true)
   | .opened x =>
     if !it.shown then (if isLast then ([93], .closed true) else ([], .opened x))
     else ([44] ++ it.body ++ (if isLast then [93] else []), if isLast then .closed true else .opened x)
